@@ -3,6 +3,7 @@ package conc
 import (
 	"bytes"
 	"context"
+	"encoding/json"
 	"errors"
 	"fmt"
 	"io"
@@ -1060,6 +1061,10 @@ func realNanos() int64 {
 // abandoned as inconclusive (never as a violation).
 var joinBudget = 60 * time.Second
 
+// virtualDeadlock is the virtual time (inside a bubble) after which unfinished
+// threads are a proved deadlock.
+const virtualDeadlock = time.Hour
+
 // timeouts counts the cases of this process abandoned by the join budget. After
 // two of them the remaining cases outside a bubble are skipped: every further
 // hang would cost another budget, and only the bubble phase of C42 can prove a
@@ -1264,11 +1269,32 @@ func runOnce(p *Plan) (out evid.Outcome, err error) {
 	tRun := realNanos()
 	defer func() { e.counters["ms-total"] += int((realNanos() - tRun0) / 1e6) }()
 	close(start)
+	done := make(chan struct{})
+	go func() { e.wg.Wait(); close(done) }()
 	if p.Bubble {
-		e.wg.Wait()
+		// Inside the bubble time is virtual: it only advances while EVERY
+		// goroutine of the bubble is durably blocked (Pebble's periodic tickers
+		// keep it advancing, so the runtime itself never reports "all goroutines
+		// blocked"). If a whole virtual hour passes and the threads still have
+		// not finished, no timer and no goroutine could unblock them: a proved
+		// deadlock, independent of wall-clock time. (A hang that involves a
+		// goroutine waiting for a sync.Mutex freezes virtual time instead; that
+		// case ends in the inconclusive wall-clock watchdog.)
+		select {
+		case <-done:
+		case <-time.After(virtualDeadlock):
+			abandoned = true
+			path := dumpGoroutines(p.Mode, "DEADLOCK", "deadlock proved in the bubble")
+			err := e.firstViol()
+			if err == nil {
+				err = fmt.Errorf("deadlock: every goroutine of the synctest bubble stayed durably blocked while %v of virtual time passed and the harness threads did not finish (goroutine stacks: %s)", virtualDeadlock, path)
+			}
+			// The bubble holds goroutines that can never finish: it cannot end
+			// and further cases (shrinking) would run next to a wedged DB. Report
+			// the verdict and stop the process.
+			abortWithViolation(p, err)
+		}
 	} else {
-		done := make(chan struct{})
-		go func() { e.wg.Wait(); close(done) }()
 		select {
 		case <-done:
 		case <-time.After(joinBudget):
@@ -1280,7 +1306,7 @@ func runOnce(p *Plan) (out evid.Outcome, err error) {
 			timeouts.Add(1)
 			e.counters["inconclusive-timeout"]++
 			out.Labels = append(out.Labels, "inconclusive-timeout")
-			dumpGoroutines(p.Mode, "threads of a case did not finish within the wall-clock budget; case abandoned as inconclusive")
+			dumpGoroutines(p.Mode, "INCONCLUSIVE-TIMEOUT", "threads of a case did not finish within the wall-clock budget; case abandoned as inconclusive")
 			return out, nil
 		}
 	}
@@ -1667,15 +1693,33 @@ func (e *engine) classify(out *evid.Outcome, reads []*readRec, metr *pebble.Metr
 
 // dumpGoroutines writes all goroutine stacks to a file under evidence/.logs
 // (never to stdout: the driver treats stacks in the output as a crash).
-func dumpGoroutines(mode, why string) string {
+func dumpGoroutines(mode, kind, why string) string {
 	buf := make([]byte, 8<<20)
 	n := runtime.Stack(buf, true)
 	dir := filepath.Join(evid.GetEnv().Dir, "evidence", ".logs")
 	os.MkdirAll(dir, 0o755)
-	path := filepath.Join(dir, fmt.Sprintf("conc-%s-timeout-%d.txt", mode, os.Getpid()))
+	path := filepath.Join(dir, fmt.Sprintf("conc-%s-%s-%d.txt", mode, strings.ToLower(kind), os.Getpid()))
 	os.WriteFile(path, append([]byte(why+"\n\n"), buf[:n]...), 0o644)
-	fmt.Printf("INCONCLUSIVE-TIMEOUT (%s): %s; stacks in %s\n", mode, why, path)
+	fmt.Printf("%s (%s): %s; stacks in %s\n", kind, mode, why, path)
 	return path
+}
+
+// abortWithViolation reports a violation in the runner's format (replay file,
+// VIOLATION line) and ends the process with exit code 1. Only used when the
+// process cannot go on (proved deadlock inside the bubble).
+func abortWithViolation(p *Plan, err error) {
+	env := evid.GetEnv()
+	id := strings.ToUpper(p.Mode)
+	path := env.Replay
+	if path == "" {
+		path = filepath.Join(env.Dir, "replays", id, fmt.Sprintf("fail-seed%d-shard%d.json", env.Seed, env.Shard))
+		js, _ := json.Marshal(p)
+		os.MkdirAll(filepath.Dir(path), 0o755)
+		os.WriteFile(path, js, 0o644)
+	}
+	msg := strings.ReplaceAll(err.Error(), "\n", "\n    ")
+	fmt.Printf("VIOLATION property=%s replay=%s\n  detail: %s\n", id, path, msg)
+	os.Exit(1)
 }
 
 // sigUnpublishedFlush: candidate finding, see NOTES.md. A flush (or
